@@ -87,9 +87,8 @@ def replayEv (s : St) (ev : String) : Except String St :=
     | some i =>
       match s.ops[i]? with
       | some o =>
-        let s1 := if b == "1" then (match step s (.scrub o.id) with | some (x, _) => x | none => s) else s
         match o.chan with
-        | some c => (match step s1 (.dropRx c) with | some (x, _) => .ok x | none => .error "dropRx")
+        | some c => (match step s (.finish c (b == "1")) with | some (x, _) => .ok x | none => .error "finish not enabled")
         | none => .error "not a search"
       | none => .error "no such op"
     | none => .error "bad finish"
